@@ -160,6 +160,8 @@ def near_work(chunk):
     norm = U.normalize_event_code
     EC = P['PAT_EVENT_CODE']
     reps = [A.rep(ci) for ci in range(len(A.classes)) if A.rep(ci) not in '\t\n']
+    # characters with a meaning of their own in whatever builds the refusal (format strings, templates, paths, patterns) - all in the same partition class
+    SPECIAL = ['%', '{', '}', '\\', '$', '(', '[', '*', "'", '"', '\x00']
     acc = Acc()
     seen = set()
     for c in L[lo:hi:step]:
@@ -171,6 +173,12 @@ def near_work(chunk):
                 if r != c[i]:
                     cand.add(c[:i] + r + c[i + 1:])
         cand.add(c + c)
+        for r in SPECIAL:
+            for i in (0, len(c) // 2, len(c)):
+                cand.add(c[:i] + r + c[i:])
+                cand.add(c[:i] + r + 's' + c[i:])
+            if c:
+                cand.add(r + c[1:])
         # look-alikes: a stretch of the code replaced by a non-ASCII character that folds into it
         cl = c.lower()
         for im, chars in G['conf'].items():
@@ -210,7 +218,7 @@ def near_work(chunk):
                 n1 = 'raised %s' % type(e).__name__
             if n1 != n0:
                 acc.bad('normal-form-depends-on-earlier-calls', dict(code=c), 'normalize(%r) = %r, after its refused near misses %r' % (c, n0, n1))
-    for s in ['', ' ', 'XYZ', '100 metres', '4x', 'x100', 'DT1.5.5K', '٣٣٣x', 'H0', 'L10', 'SST', 'JT900', '1e3']:
+    for s in ['', ' ', 'XYZ', '100 metres', '4x', 'x100', 'DT1.5.5K', '٣٣٣x', 'H0', 'L10', 'SST', 'JT900', '1e3', '%', '%s', '%d%d', '%(k)s', '{}', '{0}', '100%', '\\d+', '$HJ', 'HJ$']:
         if not EC.match(s.strip()):
             acc.n += 1
             try:
